@@ -1,5 +1,5 @@
 (* USES cosim *)
-(* C04 driver: params = P me blocksize mode base g <own block as payload> *)
+(* C04 driver: params = P me blocksize mode base g <own block as payload>; events in canonical window order *)
 let () = iter_lines (fun line ->
   if String.trim line = "" then () else
   let (ps, evs) = split_line line in
@@ -7,12 +7,13 @@ let () = iter_lines (fun line ->
   | [p; me; bs; mode; base; g; mine] ->
     let p = z_of_hex p and me = z_of_hex me and bs = int_of_z (z_of_hex bs) and base = z_of_hex base and g = z_of_hex g in
     let mine = pl_of_string mine in
-    let amax = c_SC_ALLGATHER_ALLTOALL_MAX and ta = c_SC_TAG_AG_ALLTOALL and tA = c_SC_TAG_AG_RECURSIVE_A
-    and tB = c_SC_TAG_AG_RECURSIVE_B and tC = c_SC_TAG_AG_RECURSIVE_C in
+    let amax = c_SC_ALLGATHER_ALLTOALL_MAX in
+    let tags = [| c_SC_TAG_AG_ALLTOALL; c_SC_TAG_AG_RECURSIVE_A; c_SC_TAG_AG_RECURSIVE_B; c_SC_TAG_AG_RECURSIVE_C |] in
+    let tagmap t = let i = int_of_z t in if i >= 0 && i < 4 then tags.(i) else t in
     let prog =
-      if mode = "0" then allgather_prog amax ta tA tB tC (nat_of_int bs) p me mine
+      if mode = "0" then allgather_prog amax (nat_of_int bs) p me mine
       else
-        ag_prog amax ta tA tB tC (nat_of_int bs) (nat_of_int (int_of_z g + 1)) g base me (upd (fun _ -> []) me mine)
+        ag_prog amax (nat_of_int bs) (nat_of_int (int_of_z g + 1)) g base me (upd (fun _ -> []) me mine)
           (fun buf -> Ret (slots buf base (nat_of_int (int_of_z g)))) in
-    print_endline (cosim prog evs)
+    print_endline (cosim ~tagmap prog evs)
   | _ -> print_endline "BAD_PARAMS")
